@@ -13,7 +13,7 @@ class C20Plan(RunPlan):
     prop = "C20"
     engine = "T"
     quick_runs = 3000
-    thorough_runs = 400000
+    thorough_runs = 300000
     rule = ("one evaluation = one simulated run: 2-3 real threads under the baton scheduler, each "
             "evaluating 1-4 expressions denoting dimensions/prefixes/units/logarithms not yet interned "
             "in a fresh forked world (same or merely equal-valued expressions per thread); every line "
@@ -440,7 +440,7 @@ class C08Plan(RunPlan):
                                       "timeout": self.run_timeout}))
                 where.append((i, qi))
         bres = pool.run(btasks)
-        self.baseline_worlds = len(btasks)
+        self.baseline_worlds = getattr(self, "baseline_worlds", 0) + len(btasks)
         pending = []
         for (i, qi), br in zip(where, bres):
             if "harness_error" in br:
@@ -582,7 +582,7 @@ class C07Plan(C04Plan):
         # run every seed again under -O and compare digests
         otasks = [(dict(b, opt=True), r) for b, r in tasks]
         ores = pool.run(otasks)
-        self.opt_runs = len(ores)
+        self.opt_runs = getattr(self, "opt_runs", 0) + len(ores)
         for i, (r, o) in enumerate(zip(results, ores)):
             if "harness_error" in o:
                 results[i] = {"harness_error": "-O world: " + o["harness_error"]}
@@ -631,7 +631,7 @@ class C02Plan(RunPlan):
     prop = "C02"
     engine = "A"
     quick_runs = 2500
-    thorough_runs = 150000
+    thorough_runs = 100000
     rule = ("one evaluation = one simulated history (<=60 ops) of expression evaluations over units, prefixes and "
             "dimensions (both sides of every group law as separate evaluations at different points of the history, "
             "plus random trees with * / ** root) interleaved with everything else that enters the intern tables: "
@@ -650,7 +650,7 @@ class C15Plan(RunPlan):
     prop = "C15"
     engine = "A"
     quick_runs = 2500
-    thorough_runs = 150000
+    thorough_runs = 60000
     rule = ("one evaluation = one simulated history (<=60 ops): values drawn from the pools (registered and freshly "
             "defined units, compounds, prefixed units, prefixes, dimensions, quantities with int/float/Decimal "
             "magnitudes) are round-tripped in-world through pickle protocols 2-5, copy, deepcopy, the JSON codec "
@@ -674,7 +674,7 @@ class C13Plan(RunPlan):
     prop = "C13"
     engine = "A"
     quick_runs = 2500
-    thorough_runs = 150000
+    thorough_runs = 60000
     rule = ("one evaluation = one simulated history (<=60 ops) in a seeded boot configuration (all modules, single "
             "modules, seeded import orders/subsets, with the boot tracer so that the sizes of shipped units are "
             "known): units from the C13 space (registered prefix x registered unit x exponent, products of up to 3, "
@@ -761,7 +761,7 @@ class C09Plan(RunPlan):
         singles = [{"imports": [m], "trace": True, "opt": False, "hashseed": 0} for m in ALL_MODULES]
         rng = random.Random(h64(seed, "c09-boots"))
         perms = []
-        for _ in range(6 if tier == "quick" else 48):
+        for _ in range(6 if tier == "quick" else 280):
             mods = list(ALL_MODULES)
             rng.shuffle(mods)
             k = rng.randint(2, len(mods))
